@@ -4,24 +4,27 @@ package verifx
 //
 // The zipkin-go-opentracing client that fabio's trace package uses (v0.3.5, HTTPCollector) POSTs batches to the
 // configured URL with Content-Type application/x-thrift; the body is a thrift *binary protocol* list of
-// zipkincore.Span structs.  The fake decodes every post with the library's own generated reader (the wire format is
-// thrift's, not ours), turns every span into a flat record and logs it under ONE mutex together with a logical-clock
+// zipkincore.Span structs.  The fake decodes every post, turns every span into a flat record and logs it under ONE mutex together with a logical-clock
 // ticket taken BEFORE the post is answered: the client's send() - and therefore HTTPCollector.Close() - only returns
 // after the answer, so "Close returned" is a causal barrier for "every span of the final batch is in the log".
+// The thrift binary protocol is decoded by hand (importing github.com/apache/thrift directly would make
+// `go test -mod=mod` rewrite the repository's go.mod, where thrift is an indirect requirement), following
+// zipkinCore.thrift: Span{1 trace_id i64, 3 name, 4 id i64, 5 parent_id i64?, 6 annotations list<Annotation{1 timestamp,
+// 2 value, 3 host Endpoint}>, 8 binary_annotations list<BinaryAnnotation{1 key, 2 value, 3 type, 4 host Endpoint}>,
+// 9 debug bool, 10 timestamp i64?, 11 duration i64?, 12 trace_id_high i64?}, Endpoint{1 ipv4 i32, 2 port i16,
+// 3 service_name, 4 ipv6}.
 // A JSON post (application/json, the v1 JSON form: a list of objects with traceId/id/parentId/name) is accepted as
 // well, so that a client library that changes its encoding is still understood.
 
 import (
-	"bytes"
+	"encoding/binary"
 	"encoding/json"
+	"errors"
 	"fmt"
 	"io"
 	"net"
 	"net/http"
 	"sync"
-
-	"github.com/apache/thrift/lib/go/thrift"
-	"github.com/openzipkin-contrib/zipkin-go-opentracing/thrift/gen-go/zipkincore"
 )
 
 // X08Span is one reported span as the collector saw it.
@@ -116,56 +119,159 @@ func (z *X08Zipkin) handle(w http.ResponseWriter, r *http.Request) {
 	w.WriteHeader(202)
 }
 
+// thrift binary protocol type ids
+const (
+	x08TStop   = 0
+	x08TBool   = 2
+	x08TByte   = 3
+	x08TDouble = 4
+	x08TI16    = 6
+	x08TI32    = 8
+	x08TI64    = 10
+	x08TString = 11
+	x08TStruct = 12
+	x08TMap    = 13
+	x08TSet    = 14
+	x08TList   = 15
+)
+
+type x08Reader struct {
+	b   []byte
+	err error
+}
+
+func (r *x08Reader) take(n int) []byte {
+	if r.err != nil || n < 0 || n > len(r.b) {
+		if r.err == nil {
+			r.err = errors.New("thrift: truncated")
+		}
+		return make([]byte, 8)
+	}
+	v := r.b[:n]
+	r.b = r.b[n:]
+	if n == 0 {
+		return make([]byte, 8)[:0]
+	}
+	return v
+}
+
+// value decodes one thrift value of type t: ints as int64, bool, string as []byte, struct as map[int16]any, list/set as []any.
+func (r *x08Reader) value(t byte, depth int) any {
+	if depth > 16 {
+		r.err = errors.New("thrift: too deep")
+	}
+	if r.err != nil {
+		return nil
+	}
+	switch t {
+	case x08TBool:
+		return r.take(1)[0] != 0
+	case x08TByte:
+		return int64(int8(r.take(1)[0]))
+	case x08TDouble:
+		r.take(8)
+		return int64(0)
+	case x08TI16:
+		return int64(int16(binary.BigEndian.Uint16(r.take(2))))
+	case x08TI32:
+		return int64(int32(binary.BigEndian.Uint32(r.take(4))))
+	case x08TI64:
+		return int64(binary.BigEndian.Uint64(r.take(8)))
+	case x08TString:
+		n := int(int32(binary.BigEndian.Uint32(r.take(4))))
+		return append([]byte(nil), r.take(n)...)
+	case x08TStruct:
+		m := map[int16]any{}
+		for r.err == nil {
+			ft := r.take(1)[0]
+			if r.err != nil || ft == x08TStop {
+				break
+			}
+			id := int16(binary.BigEndian.Uint16(r.take(2)))
+			m[id] = r.value(ft, depth+1)
+		}
+		return m
+	case x08TList, x08TSet:
+		et := r.take(1)[0]
+		n := int(int32(binary.BigEndian.Uint32(r.take(4))))
+		var l []any
+		for i := 0; i < n && r.err == nil; i++ {
+			l = append(l, r.value(et, depth+1))
+		}
+		return l
+	case x08TMap:
+		kt, vt := r.take(1)[0], r.take(1)[0]
+		n := int(int32(binary.BigEndian.Uint32(r.take(4))))
+		for i := 0; i < n && r.err == nil; i++ {
+			r.value(kt, depth+1)
+			r.value(vt, depth+1)
+		}
+		return nil
+	}
+	r.err = fmt.Errorf("thrift: unknown type %d", t)
+	return nil
+}
+
 func x08DecodeThrift(body []byte) ([]X08Span, error) {
-	t := thrift.NewTMemoryBuffer()
-	t.Buffer = bytes.NewBuffer(body)
-	p := thrift.NewTBinaryProtocolTransport(t)
-	et, n, err := p.ReadListBegin()
-	if err != nil {
-		return nil, fmt.Errorf("thrift list: %v", err)
+	r := &x08Reader{b: body}
+	if len(body) < 5 || body[0] != x08TStruct {
+		return nil, fmt.Errorf("thrift: not a list of structs (%d bytes)", len(body))
 	}
-	if et != thrift.STRUCT {
-		return nil, fmt.Errorf("thrift list of type %v", et)
+	l, _ := r.value(x08TList, 0).([]any)
+	if r.err != nil {
+		return nil, r.err
 	}
+	if len(r.b) != 0 {
+		return nil, fmt.Errorf("%d bytes behind the span list", len(r.b))
+	}
+	i64 := func(m map[int16]any, id int16) (int64, bool) { v, ok := m[id].(int64); return v, ok }
+	str := func(m map[int16]any, id int16) string { v, _ := m[id].([]byte); return string(v) }
 	var out []X08Span
-	for i := 0; i < n; i++ {
-		s := &zipkincore.Span{}
-		if err := s.Read(p); err != nil {
-			return out, fmt.Errorf("thrift span %d: %v", i, err)
+	for _, e := range l {
+		s, ok := e.(map[int16]any)
+		if !ok {
+			return out, errors.New("thrift: span is not a struct")
 		}
-		x := X08Span{ID: hex16(s.ID), Name: s.Name, Debug: s.Debug, Tags: map[string]string{}}
-		x.TraceID = hex16(s.TraceID)
-		if s.TraceIDHigh != nil {
-			x.TraceID = hex16(*s.TraceIDHigh) + x.TraceID
+		id, _ := i64(s, 4)
+		tid, _ := i64(s, 1)
+		x := X08Span{ID: hex16(id), TraceID: hex16(tid), Name: str(s, 3), Tags: map[string]string{}}
+		x.Debug, _ = s[9].(bool)
+		if hi, ok := i64(s, 12); ok {
+			x.TraceID = hex16(hi) + x.TraceID
 		}
-		if s.ParentID != nil {
+		if p, ok := i64(s, 5); ok {
 			x.HasParent = true
-			x.ParentID = hex16(*s.ParentID)
+			x.ParentID = hex16(p)
 		}
-		x.Timed = s.Timestamp != nil && s.Duration != nil
-		ep := func(e *zipkincore.Endpoint) {
-			if e == nil {
+		_, t1 := i64(s, 10)
+		_, t2 := i64(s, 11)
+		x.Timed = t1 && t2
+		ep := func(v any) {
+			e, ok := v.(map[int16]any)
+			if !ok {
 				return
 			}
-			x.Service = e.ServiceName
-			x.IPv4 = net.IPv4(byte(uint32(e.Ipv4)>>24), byte(uint32(e.Ipv4)>>16), byte(uint32(e.Ipv4)>>8), byte(uint32(e.Ipv4))).String()
-			x.Port = int(uint16(e.Port))
+			ip, _ := i64(e, 1)
+			port, _ := i64(e, 2)
+			x.Service = str(e, 3)
+			x.IPv4 = net.IPv4(byte(uint32(ip)>>24), byte(uint32(ip)>>16), byte(uint32(ip)>>8), byte(uint32(ip))).String()
+			x.Port = int(uint16(port))
 		}
-		for _, a := range s.Annotations {
-			x.Ann = append(x.Ann, a.Value)
-			ep(a.Host)
+		anns, _ := s[6].([]any)
+		for _, a := range anns {
+			if am, ok := a.(map[int16]any); ok {
+				x.Ann = append(x.Ann, str(am, 2))
+				ep(am[3])
+			}
 		}
-		for _, b := range s.BinaryAnnotations {
-			x.Tags[b.Key] = string(b.Value)
-			ep(b.Host)
+		bins, _ := s[8].([]any)
+		for _, b := range bins {
+			if bm, ok := b.(map[int16]any); ok {
+				x.Tags[str(bm, 1)] = str(bm, 2)
+				ep(bm[4])
+			}
 		}
 		out = append(out, x)
-	}
-	if err := p.ReadListEnd(); err != nil {
-		return out, err
-	}
-	if t.Buffer.Len() != 0 {
-		return out, fmt.Errorf("%d bytes behind the span list", t.Buffer.Len())
 	}
 	return out, nil
 }
